@@ -231,6 +231,9 @@ def run_C15(ctx):
         max_items, cap = int(cfg[0]), int(cfg[1])
         boundary_before = None
         for k in range(1, len(f) - 1):
+            if f[k].startswith("stat ") and not f[k + 1].startswith("resident"):
+                ev0 = f[k][f[k].index("cache=") + 6:].split(" ")[0].split(",")[0]
+                boundary_before = None if ev0 == "-" else tuple(int(x) for x in ev0.split(":"))
             if f[k].startswith("stat ") and f[k + 1].startswith("resident"):
                 nchk += 1
                 cache = f[k][f[k].index("cache=") + 6:].split(" ")[0].split(",")
